@@ -304,7 +304,7 @@ theorem C09_cost (t : T) (src file : Bytes) (st : St) (h : buildGraph t src file
 /-- Regenerated facts: the whole-graph pass is not inside the recursive visitor; the entry point is not
     recursive and runs the pass once; the pass itself is a doubly nested loop over the graph. -/
 theorem C09_pass_placement :
-    visitorGraphLoops = 0 ∧ visitorReachableGraphLoops = 0 ∧ visitorReachableLoopFuncs = [] ∧
+    visitorGraphLoops = 0 ∧ visitorReachableGraphLoops = 0 ∧ visitorReachableLoopFuncs = [] ∧ passCallers = ["buildGraphFromAST"] ∧
     entryPointCallsItself = 0 ∧ entryPointPassCalls = 1 ∧ passNestedGraphLoops = 2 := by
   decide
 
